@@ -170,4 +170,543 @@ theorem UF.link {pp : Array Nat} {k : Nat} {rep dep : Nat → Nat} (h : UF pp k 
       refine ⟨trivial, ?_⟩
       split <;> omega
 
+/-! ### Part B: the partition maintained by Liu's algorithm -/
+
+/-- equivalence closure -/
+inductive Eqv (r : Nat → Nat → Prop) : Nat → Nat → Prop
+  | rel {a b : Nat} : r a b → Eqv r a b
+  | refl (a : Nat) : Eqv r a a
+  | symm {a b : Nat} : Eqv r a b → Eqv r b a
+  | trans {a b c : Nat} : Eqv r a b → Eqv r b c → Eqv r a c
+
+theorem Eqv.mono {r r' : Nat → Nat → Prop} (h : ∀ a b, r a b → r' a b) {a b : Nat}
+    (e : Eqv r a b) : Eqv r' a b := by
+  induction e with
+  | rel hr => exact Eqv.rel (h _ _ hr)
+  | refl a => exact Eqv.refl a
+  | symm _ ih => exact Eqv.symm ih
+  | trans _ _ ih1 ih2 => exact Eqv.trans ih1 ih2
+
+theorem Eqv.congr {r r' : Nat → Nat → Prop} (h : ∀ a b, r a b ↔ r' a b) (a b : Nat) :
+    Eqv r a b ↔ Eqv r' a b :=
+  ⟨Eqv.mono fun a b => (h a b).mp, Eqv.mono fun a b => (h a b).mpr⟩
+
+/-- adding one pair `(x, y)` to the generators unites the classes of `x` and `y` -/
+theorem eqv_insert (r : Nat → Nat → Prop) (x y a b : Nat) :
+    Eqv (fun a b => r a b ∨ (a = x ∧ b = y)) a b ↔
+      Eqv r a b ∨ ((Eqv r a x ∨ Eqv r a y) ∧ (Eqv r b x ∨ Eqv r b y)) := by
+  constructor
+  · intro e
+    induction e with
+    | rel hr =>
+      rcases hr with hr | ⟨rfl, rfl⟩
+      · exact Or.inl (Eqv.rel hr)
+      · exact Or.inr ⟨Or.inl (Eqv.refl _), Or.inr (Eqv.refl _)⟩
+    | refl a => exact Or.inl (Eqv.refl a)
+    | symm _ ih =>
+      rcases ih with ih | ⟨h1, h2⟩
+      · exact Or.inl (Eqv.symm ih)
+      · exact Or.inr ⟨h2, h1⟩
+    | trans _ _ ih1 ih2 =>
+      rename_i a b c _ _
+      rcases ih1 with h1 | ⟨h1, h1'⟩
+      · rcases ih2 with h2 | ⟨h2, h2'⟩
+        · exact Or.inl (Eqv.trans h1 h2)
+        · refine Or.inr ⟨?_, h2'⟩
+          rcases h2 with h2 | h2
+          · exact Or.inl (Eqv.trans h1 h2)
+          · exact Or.inr (Eqv.trans h1 h2)
+      · rcases ih2 with h2 | ⟨_, h2'⟩
+        · refine Or.inr ⟨h1, ?_⟩
+          rcases h1' with h | h
+          · exact Or.inl (Eqv.trans (Eqv.symm h2) h)
+          · exact Or.inr (Eqv.trans (Eqv.symm h2) h)
+        · exact Or.inr ⟨h1, h2'⟩
+  · have hm : ∀ a b, Eqv r a b → Eqv (fun a b => r a b ∨ (a = x ∧ b = y)) a b :=
+      fun a b => Eqv.mono fun a b h => Or.inl h
+    have hxy : Eqv (fun a b => r a b ∨ (a = x ∧ b = y)) x y := Eqv.rel (Or.inr ⟨rfl, rfl⟩)
+    rintro (h | ⟨h1, h2⟩)
+    · exact hm _ _ h
+    · have ha : Eqv (fun a b => r a b ∨ (a = x ∧ b = y)) a x := by
+        rcases h1 with h | h
+        · exact hm _ _ h
+        · exact Eqv.trans (hm _ _ h) (Eqv.symm hxy)
+      have hb : Eqv (fun a b => r a b ∨ (a = x ∧ b = y)) b x := by
+        rcases h2 with h | h
+        · exact hm _ _ h
+        · exact Eqv.trans (hm _ _ h) (Eqv.symm hxy)
+      exact Eqv.trans ha (Eqv.symm hb)
+
+/-- the edges Liu's algorithm has seen when it is in column `c` and has handled the entries `l` of that
+column: every `a → b` with `b ∈ nbrs a`, `b < a < c`, and `c → b` for `b ∈ l`, `b < c` -/
+def Lk (nbrs : Nat → List Nat) (c : Nat) (l : List Nat) (a b : Nat) : Prop :=
+  b < a ∧ ((a < c ∧ b ∈ nbrs a) ∨ (a = c ∧ b ∈ l))
+
+/-- connected components of those edges -/
+def Cls (nbrs : Nat → List Nat) (c : Nat) (l : List Nat) : Nat → Nat → Prop := Eqv (Lk nbrs c l)
+
+theorem Cls_dom {nbrs : Nat → List Nat} {c : Nat} {l : List Nat} {a b : Nat} (h : Cls nbrs c l a b) :
+    a = b ∨ (a ≤ c ∧ b ≤ c) := by
+  induction h with
+  | rel hr =>
+    obtain ⟨h1, h2 | h2⟩ := hr
+    · right; omega
+    · right; omega
+  | refl a => exact Or.inl rfl
+  | symm _ ih => rcases ih with ih | ih; exact Or.inl ih.symm; exact Or.inr ⟨ih.2, ih.1⟩
+  | trans _ _ ih1 ih2 =>
+    rcases ih1 with rfl | ih1
+    · exact ih2
+    · rcases ih2 with rfl | ih2
+      · exact Or.inr ih1
+      · exact Or.inr ⟨ih1.1, ih2.2⟩
+
+theorem Cls_nil_dom {nbrs : Nat → List Nat} {c : Nat} {a b : Nat} (h : Cls nbrs c [] a b) :
+    a = b ∨ (a < c ∧ b < c) := by
+  induction h with
+  | rel hr =>
+    obtain ⟨h1, h2 | h2⟩ := hr
+    · right; omega
+    · simp at h2
+  | refl a => exact Or.inl rfl
+  | symm _ ih => rcases ih with ih | ih; exact Or.inl ih.symm; exact Or.inr ⟨ih.2, ih.1⟩
+  | trans _ _ ih1 ih2 =>
+    rcases ih1 with rfl | ih1
+    · exact ih2
+    · rcases ih2 with rfl | ih2
+      · exact Or.inr ih1
+      · exact Or.inr ⟨ih1.1, ih2.2⟩
+
+theorem Cls_succ (nbrs : Nat → List Nat) (c a b : Nat) :
+    Cls nbrs c (nbrs c) a b ↔ Cls nbrs (c + 1) [] a b := by
+  apply Eqv.congr
+  intro a b
+  unfold Lk
+  constructor
+  · rintro ⟨h1, h2 | h2⟩
+    · exact ⟨h1, Or.inl ⟨by omega, h2.2⟩⟩
+    · exact ⟨h1, Or.inl ⟨by omega, h2.1 ▸ h2.2⟩⟩
+  · rintro ⟨h1, h2 | h2⟩
+    · by_cases e : a = c
+      · exact ⟨h1, Or.inr ⟨e, e ▸ h2.2⟩⟩
+      · exact ⟨h1, Or.inl ⟨by omega, h2.2⟩⟩
+    · simp at h2
+
+theorem Cls_nil_le {nbrs : Nat → List Nat} {c : Nat} (l : List Nat) {a b : Nat}
+    (h : Cls nbrs c [] a b) : Cls nbrs c l a b := by
+  refine Eqv.mono ?_ h
+  rintro a b ⟨h1, h2 | h2⟩
+  · exact ⟨h1, Or.inl h2⟩
+  · simp at h2
+
+theorem Cls_snoc_skip (nbrs : Nat → List Nat) (c : Nat) (l : List Nat) (u : Nat) (hu : ¬ u < c)
+    (a b : Nat) : Cls nbrs c (l ++ [u]) a b ↔ Cls nbrs c l a b := by
+  apply Eqv.congr
+  intro a b
+  unfold Lk
+  constructor
+  · rintro ⟨h1, h2 | h2⟩
+    · exact ⟨h1, Or.inl h2⟩
+    · rcases List.mem_append.mp h2.2 with h | h
+      · exact ⟨h1, Or.inr ⟨h2.1, h⟩⟩
+      · simp at h; omega
+  · rintro ⟨h1, h2 | h2⟩
+    · exact ⟨h1, Or.inl h2⟩
+    · exact ⟨h1, Or.inr ⟨h2.1, List.mem_append.mpr (Or.inl h2.2)⟩⟩
+
+theorem Cls_snoc (nbrs : Nat → List Nat) (c : Nat) (l : List Nat) (u : Nat) (hu : u < c) (a b : Nat) :
+    Cls nbrs c (l ++ [u]) a b ↔
+      Cls nbrs c l a b ∨ ((Cls nbrs c l a c ∨ Cls nbrs c l a u) ∧ (Cls nbrs c l b c ∨ Cls nbrs c l b u)) := by
+  unfold Cls
+  rw [← eqv_insert (Lk nbrs c l) c u a b]
+  apply Eqv.congr
+  intro a b
+  unfold Lk
+  constructor
+  · rintro ⟨h1, h2 | h2⟩
+    · exact Or.inl ⟨h1, Or.inl h2⟩
+    · rcases List.mem_append.mp h2.2 with h | h
+      · exact Or.inl ⟨h1, Or.inr ⟨h2.1, h⟩⟩
+      · simp at h; exact Or.inr ⟨h2.1, h⟩
+  · rintro (⟨h1, h2 | h2⟩ | ⟨rfl, rfl⟩)
+    · exact ⟨h1, Or.inl h2⟩
+    · exact ⟨h1, Or.inr ⟨h2.1, List.mem_append.mpr (Or.inl h2.2)⟩⟩
+    · exact ⟨hu, Or.inr ⟨rfl, by simp⟩⟩
+
+/-- a class that does not contain the current column is a class of the columns before it -/
+theorem Cls_nil_or {nbrs : Nat → List Nat} {c : Nat} {l : List Nat} {a b : Nat} (h : Cls nbrs c l a b) :
+    Cls nbrs c [] a b ∨ Cls nbrs c l a c := by
+  induction h with
+  | rel hr =>
+    obtain ⟨h1, h2 | h2⟩ := hr
+    · exact Or.inl (Eqv.rel ⟨h1, Or.inl h2⟩)
+    · exact Or.inr (h2.1 ▸ Eqv.refl _)
+  | refl a => exact Or.inl (Eqv.refl a)
+  | symm h ih =>
+    rcases ih with ih | ih
+    · exact Or.inl (Eqv.symm ih)
+    · exact Or.inr (Eqv.trans (Eqv.symm h) ih)
+  | trans h1 _ ih1 ih2 =>
+    rcases ih1 with ih1 | ih1
+    · rcases ih2 with ih2 | ih2
+      · exact Or.inl (Eqv.trans ih1 ih2)
+      · exact Or.inr (Eqv.trans h1 ih2)
+    · exact Or.inr ih1
+
+/-- what `parent[v]` records: either `v` is still the largest column of its class (then the root marker
+`nc`), or the column `p = parent[v]` whose loop absorbed the class of `v`: at that moment `v` was the
+largest column of its class among the columns `< p`, and some entry `u` of column `p` lies in it -/
+def PI (nbrs : Nat → List Nat) (nc : Nat) (R : Nat → Nat → Prop) (parent : Array Nat) (v : Nat) : Prop :=
+  (parent.getD v 0 = nc ∧ ∀ j, R v j → j ≤ v) ∨
+  (v < parent.getD v 0 ∧ parent.getD v 0 < nc ∧ (∀ j, Cls nbrs (parent.getD v 0) [] v j → j ≤ v) ∧
+     ∃ u, u < parent.getD v 0 ∧ u ∈ nbrs (parent.getD v 0) ∧ Cls nbrs (parent.getD v 0) [] u v)
+
+/-- the state of Liu's algorithm represents the partition `R` of the columns `< k` -/
+structure Core (nbrs : Nat → List Nat) (nc k : Nat) (R : Nat → Nat → Prop) (st : St)
+    (rep dep : Nat → Nat) : Prop where
+  spp : st.pp.size = nc
+  sroot : st.root.size = nc
+  spar : st.parent.size = nc
+  hk : k ≤ nc
+  uf : UF st.pp k rep dep
+  cls : ∀ i j, i < k → j < k → (rep i = rep j ↔ R i j)
+  mx : ∀ i, i < k → R i (st.root.getD (rep i) 0) ∧ ∀ j, R i j → j ≤ st.root.getD (rep i) 0
+  par : ∀ v, v < k → PI nbrs nc R st.parent v
+
+theorem Core.congr {nbrs : Nat → List Nat} {nc k : Nat} {R R' : Nat → Nat → Prop} {st : St}
+    {rep dep : Nat → Nat} (hR : ∀ a b, R a b ↔ R' a b) (h : Core nbrs nc k R st rep dep) :
+    Core nbrs nc k R' st rep dep := by
+  refine ⟨h.spp, h.sroot, h.spar, h.hk, h.uf, ?_, ?_, ?_⟩
+  · intro i j hi hj; rw [← hR]; exact h.cls i j hi hj
+  · intro i hi
+    obtain ⟨h1, h2⟩ := h.mx i hi
+    exact ⟨(hR _ _).mp h1, fun j hj => h2 j ((hR _ _).mpr hj)⟩
+  · intro v hv
+    rcases h.par v hv with ⟨h1, h2⟩ | h1
+    · exact Or.inl ⟨h1, fun j hj => h2 j ((hR _ _).mpr hj)⟩
+    · exact Or.inr h1
+
+theorem liuEdge_eq (col : Nat) (st : St) (cset row : Nat) :
+    liuEdge col (st, cset) row =
+      if row ≥ col then (st, cset) else
+      if st.root.getD (find st.pp row).2 0 ≠ col then
+        ({ pp := (find st.pp row).1.setIfInBounds cset (find st.pp row).2,
+           root := st.root.setIfInBounds (find st.pp row).2 col,
+           parent := st.parent.setIfInBounds (st.root.getD (find st.pp row).2 0) col },
+         (find st.pp row).2)
+      else ({ st with pp := (find st.pp row).1 }, cset) := by
+  unfold liuEdge
+  rfl
+
+/-- `make_set` of column `c` -/
+theorem liuInit_core {nbrs : Nat → List Nat} {nc c : Nat} {st : St} {rep dep : Nat → Nat}
+    (h : Core nbrs nc c (Cls nbrs c []) st rep dep) (hc : c < nc) :
+    Core nbrs nc (c + 1) (Cls nbrs c []) (liuInit nc st c) (fun x => if x = c then c else rep x) dep := by
+  have hrl : ∀ i, i < c → rep i < c := fun i hi => (h.uf.rep_root i hi).1
+  unfold liuInit
+  refine ⟨by simpa using h.spp, by simpa using h.sroot, by simpa using h.spar, hc, ?_, ?_, ?_, ?_⟩
+  · refine ⟨by simp only [Array.size_setIfInBounds]; rw [h.spp]; exact hc, ?_, ?_, ?_⟩
+    · intro i hi
+      simp only [getD_setIfInBounds]
+      split
+      · omega
+      · rename_i hn
+        have : i < c := by
+          rcases Nat.lt_or_ge i c with h' | h'
+          · exact h'
+          · exfalso; apply hn; exact ⟨by omega, by rw [h.spp]; exact hc⟩
+        have := h.uf.lt i this; omega
+    · intro i hi
+      simp only [getD_setIfInBounds]
+      split
+      · rename_i hh; intro _; simp [hh.1]
+      · rename_i hn
+        have hic : i < c := by
+          rcases Nat.lt_or_ge i c with h' | h'
+          · exact h'
+          · exfalso; apply hn; exact ⟨by omega, by rw [h.spp]; exact hc⟩
+        intro e
+        have hne : i ≠ c := by omega
+        simp only [hne, if_false]
+        exact h.uf.root i hic e
+    · intro i hi
+      simp only [getD_setIfInBounds]
+      split
+      · rename_i hh; intro e; exact absurd hh.1.symm e
+      · rename_i hn
+        have hic : i < c := by
+          rcases Nat.lt_or_ge i c with h' | h'
+          · exact h'
+          · exfalso; apply hn; exact ⟨by omega, by rw [h.spp]; exact hc⟩
+        intro e
+        have hne : i ≠ c := by omega
+        have hpl := h.uf.lt i hic
+        have hne2 : st.pp.getD i 0 ≠ c := by omega
+        simp only [hne, hne2, if_false]
+        exact h.uf.step i hic e
+  · intro i j hi hj
+    by_cases ei : i = c
+    · by_cases ej : j = c
+      · subst ei; subst ej; simp only [if_true, true_iff]; exact Eqv.refl _
+      · have hjc : j < c := by omega
+        have := hrl j hjc
+        simp only [ei, ej, if_true, if_false]
+        constructor
+        · intro e; omega
+        · intro e
+          rcases Cls_nil_dom e with e | e <;> omega
+    · have hic : i < c := by omega
+      by_cases ej : j = c
+      · have := hrl i hic
+        simp only [ei, ej, if_true, if_false]
+        constructor
+        · intro e; omega
+        · intro e
+          rcases Cls_nil_dom e with e | e <;> omega
+      · simp only [ei, ej, if_false]
+        exact h.cls i j hic (by omega)
+  · intro i hi
+    by_cases ei : i = c
+    · subst ei
+      simp only [if_true, getD_setIfInBounds, h.sroot, hc, and_self]
+      refine ⟨Eqv.refl _, fun j hj => ?_⟩
+      rcases Cls_nil_dom hj with e | e <;> omega
+    · have hic : i < c := by omega
+      have := hrl i hic
+      have hne : ¬ (rep i = c ∧ c < st.root.size) := by omega
+      simp only [ei, if_false, getD_setIfInBounds, hne]
+      exact h.mx i hic
+  · intro v hv
+    unfold PI
+    by_cases ev : v = c
+    · subst ev
+      left
+      simp only [getD_setIfInBounds, h.spar, hc, and_self, if_true, true_and]
+      intro j hj
+      rcases Cls_nil_dom hj with e | e <;> omega
+    · have hne : ¬ (v = c ∧ c < st.parent.size) := fun e => ev e.1
+      simp only [getD_setIfInBounds, hne, if_false]
+      exact h.par v (by omega)
+
+/-- one entry `u` of column `c` -/
+theorem liuEdge_core {nbrs : Nat → List Nat} {nc c : Nat} (hc : c < nc) (l : List Nat) (u : Nat)
+    (hu : u ∈ nbrs c) (st : St) (cset : Nat) (rep dep : Nat → Nat)
+    (h : Core nbrs nc (c + 1) (Cls nbrs c l) st rep dep) (hcs : cset = rep c) :
+    ∃ rep' dep', Core nbrs nc (c + 1) (Cls nbrs c (l ++ [u])) (liuEdge c (st, cset) u).1 rep' dep' ∧
+      (liuEdge c (st, cset) u).2 = rep' c := by
+  rw [liuEdge_eq]
+  by_cases huc : u ≥ c
+  · rw [if_pos huc]
+    exact ⟨rep, dep, h.congr (fun a b => (Cls_snoc_skip nbrs c l u (by omega) a b).symm), hcs⟩
+  rw [if_neg huc]
+  have huc' : u < c := by omega
+  have hu1 : u < c + 1 := by omega
+  have hc1 : c < c + 1 := by omega
+  obtain ⟨hf1, hf2, hf3⟩ := find_spec h.uf u hu1
+  rw [hf2]
+  -- the class of `c` has maximum `c`
+  have hmc : st.root.getD (rep c) 0 = c := by
+    obtain ⟨m1, m2⟩ := h.mx c hc1
+    have := m2 c (Eqv.refl _)
+    rcases Cls_dom m1 with e | e <;> omega
+  obtain ⟨mu1, mu2⟩ := h.mx u hu1
+  have hsnoc := Cls_snoc nbrs c l u huc'
+  by_cases hrr : st.root.getD (rep u) 0 ≠ c
+  · rw [if_pos hrr]
+    have hnuc : ¬ Cls nbrs c l u c := by
+      intro e
+      have := (h.cls u c hu1 hc1).mpr e
+      rw [this] at hrr; exact hrr hmc
+    have hrc := h.uf.rep_root c hc1
+    have hru := h.uf.rep_root u hu1
+    have hne : rep c ≠ rep u := by
+      intro e; exact hnuc ((h.cls u c hu1 hc1).mp e.symm)
+    have hlink := UF.link hf1 (rep c) (rep u) hrc.1 hru.1 hrc.2.2 hru.2.2 hne
+    have hrrle : st.root.getD (rep u) 0 < c := by
+      have := Cls_dom mu1
+      have hh : st.root.getD (rep u) 0 ≠ c := hrr
+      omega
+    -- representatives after the merge
+    have hP : ∀ i, i < c + 1 → (Cls nbrs c l i c ∨ Cls nbrs c l i u) →
+        (if rep i = rep c then rep u else rep i) = rep u := by
+      intro i hi hp
+      rcases hp with hp | hp
+      · rw [if_pos ((h.cls i c hi hc1).mpr hp)]
+      · split
+        · rfl
+        · exact (h.cls i u hi hu1).mpr hp
+    have hN : ∀ i, i < c + 1 → ¬ (Cls nbrs c l i c ∨ Cls nbrs c l i u) →
+        (if rep i = rep c then rep u else rep i) = rep i ∧ rep i ≠ rep u := by
+      intro i hi hp
+      have h1 : rep i ≠ rep c := fun e => hp (Or.inl ((h.cls i c hi hc1).mp e))
+      have h2 : rep i ≠ rep u := fun e => hp (Or.inr ((h.cls i u hi hu1).mp e))
+      exact ⟨if_neg h1, h2⟩
+    refine ⟨fun x => if rep x = rep c then rep u else rep x,
+      fun x => if rep x = rep c then dep x + dep (rep u) + 1 else dep x,
+      ⟨?_, ?_, ?_, hc, ?_, ?_, ?_, ?_⟩, ?_⟩
+    · simp only [Array.size_setIfInBounds]; rw [hf3]; exact h.spp
+    · simp only [Array.size_setIfInBounds]; exact h.sroot
+    · simp only [Array.size_setIfInBounds]; exact h.spar
+    · rw [hcs]; exact hlink
+    · -- classes
+      intro i j hi hj
+      show (if rep i = rep c then rep u else rep i) = (if rep j = rep c then rep u else rep j) ↔ _
+      rw [hsnoc]
+      by_cases pi : Cls nbrs c l i c ∨ Cls nbrs c l i u
+      · by_cases pj : Cls nbrs c l j c ∨ Cls nbrs c l j u
+        · rw [hP i hi pi, hP j hj pj]
+          exact ⟨fun _ => Or.inr ⟨pi, pj⟩, fun _ => rfl⟩
+        · rw [hP i hi pi, (hN j hj pj).1]
+          constructor
+          · intro e; exact absurd e.symm (hN j hj pj).2
+          · rintro (e | ⟨_, e⟩)
+            · exfalso; apply pj
+              rcases pi with p | p
+              · exact Or.inl (Eqv.trans (Eqv.symm e) p)
+              · exact Or.inr (Eqv.trans (Eqv.symm e) p)
+            · exact absurd e pj
+      · by_cases pj : Cls nbrs c l j c ∨ Cls nbrs c l j u
+        · rw [hP j hj pj, (hN i hi pi).1]
+          constructor
+          · intro e; exact absurd e (hN i hi pi).2
+          · rintro (e | ⟨e, _⟩)
+            · exfalso; apply pi
+              rcases pj with p | p
+              · exact Or.inl (Eqv.trans e p)
+              · exact Or.inr (Eqv.trans e p)
+            · exact absurd e pi
+        · rw [(hN i hi pi).1, (hN j hj pj).1, h.cls i j hi hj]
+          constructor
+          · intro e; exact Or.inl e
+          · rintro (e | ⟨e, _⟩)
+            · exact e
+            · exact absurd e pi
+    · -- maxima
+      intro i hi
+      show Cls nbrs c (l ++ [u]) i ((st.root.setIfInBounds (rep u) c).getD
+          (if rep i = rep c then rep u else rep i) 0) ∧ ∀ j, Cls nbrs c (l ++ [u]) i j →
+          j ≤ (st.root.setIfInBounds (rep u) c).getD (if rep i = rep c then rep u else rep i) 0
+      have hinb : rep u < st.root.size := by rw [h.sroot]; have := hru.1; omega
+      by_cases pi : Cls nbrs c l i c ∨ Cls nbrs c l i u
+      · rw [hP i hi pi, getD_setIfInBounds, if_pos ⟨rfl, hinb⟩]
+        refine ⟨(hsnoc i c).mpr (Or.inr ⟨pi, Or.inl (Eqv.refl _)⟩), fun j hj => ?_⟩
+        rcases Cls_dom hj with e | e <;> omega
+      · obtain ⟨e1, e2⟩ := hN i hi pi
+        rw [e1, getD_setIfInBounds, if_neg (fun e => e2 e.1)]
+        obtain ⟨m1, m2⟩ := h.mx i hi
+        refine ⟨(hsnoc _ _).mpr (Or.inl m1), fun j hj => m2 j ?_⟩
+        rcases (hsnoc _ _).mp hj with e | ⟨e, _⟩
+        · exact e
+        · exact absurd e pi
+    · -- parents
+      intro v hv
+      show PI nbrs nc (Cls nbrs c (l ++ [u])) (st.parent.setIfInBounds (st.root.getD (rep u) 0) c) v
+      have hinb : st.root.getD (rep u) 0 < st.parent.size := by rw [h.spar]; omega
+      unfold PI
+      by_cases ev : v = st.root.getD (rep u) 0
+      · right
+        rw [getD_setIfInBounds, if_pos ⟨ev, hinb⟩]
+        refine ⟨by omega, hc, ?_, u, huc', hu, ?_⟩
+        · intro j hj
+          rw [ev]
+          apply mu2
+          rw [ev] at hj
+          exact Eqv.trans mu1 (Cls_nil_le l hj)
+        · rw [ev]
+          rcases Cls_nil_or mu1 with e | e
+          · exact e
+          · exact absurd e hnuc
+      · rw [getD_setIfInBounds, if_neg (fun e => ev e.1)]
+        rcases h.par v hv with ⟨p1, p2⟩ | p1
+        · left
+          refine ⟨p1, fun j hj => ?_⟩
+          rcases (hsnoc _ _).mp hj with e | ⟨e | e, _⟩
+          · exact p2 j e
+          · have := p2 c e
+            rcases Cls_dom hj with e' | e' <;> omega
+          · exfalso
+            have h1 := p2 _ (Eqv.trans e mu1)
+            have h2 := mu2 v (Eqv.symm e)
+            omega
+        · exact Or.inr p1
+    · show rep u = if rep c = rep c then rep u else rep c
+      rw [if_pos rfl]
+  · rw [if_neg hrr]
+    have hrr' : st.root.getD (rep u) 0 = c := by
+      by_contra e; exact hrr e
+    have huc2 : Cls nbrs c l u c := hrr' ▸ mu1
+    refine ⟨rep, dep, ?_, hcs⟩
+    have hR : ∀ a b, Cls nbrs c l a b ↔ Cls nbrs c (l ++ [u]) a b := by
+      intro a b
+      rw [hsnoc]
+      constructor
+      · intro e; exact Or.inl e
+      · rintro (e | ⟨e1, e2⟩)
+        · exact e
+        · have ha : Cls nbrs c l a c := by
+            rcases e1 with e | e
+            · exact e
+            · exact Eqv.trans e huc2
+          have hb : Cls nbrs c l b c := by
+            rcases e2 with e | e
+            · exact e
+            · exact Eqv.trans e huc2
+          exact Eqv.trans ha (Eqv.symm hb)
+    refine Core.congr hR ?_
+    exact ⟨by show (find st.pp u).1.size = nc; rw [hf3]; exact h.spp, h.sroot, h.spar, h.hk, hf1,
+      h.cls, h.mx, h.par⟩
+
+/-- fold invariant that knows the prefix already consumed -/
+theorem foldl_prefix_inv {α β : Type} (f : β → α → β) (L : List α) :
+    ∀ (P : List α → β → Prop) (b : β), P [] b →
+      (∀ l x s, x ∈ L → P l s → P (l ++ [x]) (f s x)) → P L (L.foldl f b) := by
+  induction L with
+  | nil => intro P b h0 _; exact h0
+  | cons x xs ih =>
+    intro P b h0 hstep
+    rw [List.foldl_cons]
+    apply ih (fun l s => P (x :: l) s)
+    · exact hstep [] x b List.mem_cons_self h0
+    · intro l y s hy hp
+      exact hstep (x :: l) y s (List.mem_cons_of_mem _ hy) hp
+
+/-- state between two columns -/
+def LiuInv (nbrs : Nat → List Nat) (nc k : Nat) (st : St) : Prop :=
+  ∃ rep dep, Core nbrs nc k (Cls nbrs k []) st rep dep
+
+theorem liuCol_inv {nbrs : Nat → List Nat} {nc c : Nat} (hc : c < nc) {st : St}
+    (h : LiuInv nbrs nc c st) : LiuInv nbrs nc (c + 1) (liuCol nc nbrs st c) := by
+  obtain ⟨rep, dep, h⟩ := h
+  unfold liuCol
+  have key := foldl_prefix_inv (liuEdge c) (nbrs c)
+    (fun l (sc : St × Nat) => ∃ rep' dep', Core nbrs nc (c + 1) (Cls nbrs c l) sc.1 rep' dep' ∧
+      sc.2 = rep' c) (liuInit nc st c, c)
+    ⟨_, _, liuInit_core h hc, by simp⟩
+    (by
+      rintro l x ⟨s, cs⟩ hx ⟨rep', dep', h1, h2⟩
+      exact liuEdge_core hc l x hx s cs rep' dep' h1 h2)
+  obtain ⟨rep', dep', h1, _⟩ := key
+  exact ⟨rep', dep', h1.congr (Cls_succ nbrs c)⟩
+
+/-- **Invariant of Liu's algorithm, final form.**  `parent` has `nc` entries and every `parent[v]`
+is as described by `PI` with respect to the components of all the columns. -/
+theorem liu_PI (nc : Nat) (nbrs : Nat → List Nat) :
+    (liu nc nbrs).size = nc ∧ ∀ v, v < nc → PI nbrs nc (Cls nbrs nc []) (liu nc nbrs) v := by
+  unfold liu
+  have key := foldl_range_inv (fun k (st : St) => k ≤ nc → LiuInv nbrs nc k st)
+    (liuCol nc nbrs) nc
+    { pp := Array.replicate nc 0, root := Array.replicate nc 0, parent := Array.replicate nc 0 }
+    (by
+      intro _
+      refine ⟨id, fun _ => 0, by simp, by simp, by simp, Nat.zero_le _, ?_, ?_, ?_, ?_⟩
+      · exact ⟨Nat.zero_le _, fun i hi => by omega, fun i hi => by omega, fun i hi => by omega⟩
+      · intro i j hi; omega
+      · intro i hi; omega
+      · intro i hi; omega)
+    (by
+      intro st c hc ih _
+      exact liuCol_inv hc (ih (Nat.le_of_lt hc)))
+  obtain ⟨rep, dep, h⟩ := key (Nat.le_refl _)
+  exact ⟨h.spar, h.par⟩
+
 end Slu.Order
